@@ -135,7 +135,7 @@ MsgClass(m) == IF m \in {"mm", "rm"} THEN m ELSE IF m = "" THEN "EMPTY" ELSE "de
 TestCM(node, v) ==
   LET R[i \in 0..Len(node.tests)] ==
         IF i = 0 THEN <<>>
-        ELSE IF Pass(node.tests[i], v) THEN R[i - 1]
+        ELSE IF PassN(node, node.tests[i], v) THEN R[i - 1]
         ELSE Append(R[i - 1], [code |-> node.tests[i].code, msg |-> IF node.tests[i].msg # "" THEN node.tests[i].msg ELSE "default"])
   IN R[Len(node.tests)]
 C17Want(c) ==
